@@ -46,6 +46,10 @@ def holds(c, env):
         return len(set(a)) == len(a)
     if k == "eq":
         return a[0] == a[1]
+    if k == "neq":
+        return a[0] != a[1]
+    if k == "neq2":      # [a, b] != [c, d]
+        return (a[0], a[1]) != (a[2], a[3])
     raise ValueError(k)
 
 
@@ -201,6 +205,57 @@ def run_fd(pid, tier, seed, replay=None):
         if third == "h":
             body = [["fresh", ["h"]] + body]
         cases.append(mk_case([], ["q", "r"], body, spec=(names, doms, [[rel, "q", "r", third]]), mode="bag_terms", budget=20000, maxans=200))
+    # tree disequalities (!=) on finite-domain variables whose values are fixed by propagation (a domain
+    # shrinking to one value), never by ==: the != must be re-checked when the domain binds the variable
+    for _ in range(n // 5):
+        a = rnd.randint(-2, 2)
+        w = rnd.randint(1, 3)
+        dq = list(range(a - rnd.randint(0, 2), a + w + 1))
+        dr = list(range(a - 1, a + 2))
+        pin = rnd.choice([[["ltefd", "q", a], ["ltefd", a, "q"]], [["plusfd", "q", 0, a]], [["ltefd", "q", dq[0]]], [["ltefd", dq[-1], "q"]],
+                          [["minusfd", "q", a, 0]], [["ltefd", "q", "r"], ["ltefd", "r", dq[0]]]])
+        tree = rnd.choice([[["neq", "q", a]], [["neq", "q", dq[0]]], [["neq", "q", dq[-1]]], [["neq", "q", "r"]],
+                           [["neq2", "q", "r", a, a]], [["neq2", "q", "r", dq[0], dr[0]]], [["neq", "r", a], ["neq", "q", "r"]]])
+        body = [["dom", "q", ["i", dq[0], dq[-1]]], ["dom", "r", ["i", dr[0], dr[-1]]]]
+        cons = []
+        for c in pin:
+            body.append(["rel"] + c); cons.append(c)
+        tg = []
+        for c in tree:
+            tg.append(["neq", c[1], c[2]] if c[0] == "neq" else ["neq", ["list", c[1], c[2]], ["list", c[3], c[4]]]); cons.append(c)
+        # the disequalities first (stored, waiting), or shuffled anywhere
+        body = tg + body if rnd.random() < 0.6 else body + tg
+        if rnd.random() < 0.3:
+            rnd.shuffle(body)
+        cases.append(mk_case([], ["q", "r"], body, spec=(["q", "r"], {"q": dq, "r": dr}, cons), mode="bag_terms", budget=20000, maxans=200))
+    # a second domain (or an equation between two domain variables) that removes only interior values:
+    # the intersection keeps both bounds
+    for _ in range(n // 5):
+        lo = rnd.randint(-3, 0)
+        full = list(range(lo, lo + rnd.randint(3, 6)))
+        inner = [v for v in full[1:-1] if rnd.random() < 0.5]
+        holed = [full[0]] + inner + [full[-1]]
+        if len(holed) == len(full):
+            holed.remove(full[1])
+        first = rnd.choice([["dom", "q", ["i", full[0], full[-1]]], ["dom", "q", ["v"] + full]])
+        second = ["dom", rnd.choice(["q", "r"]), ["v"] + holed]
+        kind = rnd.random()
+        if second[1] == "q":
+            body = [first, second, ["dom", "r", ["i", 0, 1]]]
+            doms = {"q": holed, "r": [0, 1]}
+            cons = []
+        else:
+            link = rnd.choice([["eq", "q", "r"], ["eq", "r", "q"]])
+            body = [first, second, link]
+            doms = {"q": full, "r": holed}
+            cons = [["eq", "q", "r"]]
+        if kind < 0.4:
+            extra = rnd.choice([["plusfd", "q", 1, "r"], ["ltefd", "r", "q"], ["diseqfd", "q", "r"], ["minusfd", "q", "r", 0]])
+            body.append(["rel"] + extra)
+            cons.append(extra)
+        if rnd.random() < 0.4:
+            rnd.shuffle(body)
+        cases.append(mk_case([], ["q", "r"], body, spec=(["q", "r"], doms, cons), mode="bag_terms", budget=20000, maxans=200))
     # corpus
     cases.append(mk_case([], ["q", "r"], [["dom", "q", ["i", 1, 3]], ["rel", "plusfd", "q", "q", "q"], ["dom", "r", ["i", 0, 0]]],
                          spec=(["q", "r"], {"q": [1, 2, 3], "r": [0]}, [["plusfd", "q", "q", "q"]]), mode="bag_terms"))
